@@ -1,54 +1,63 @@
 (* C35 — Entity handles stay unique and entity creation never panics.  Property file.
    Model: Entity/EntityModel.v.  `frun pr f ops` runs a history of mails (create / delete / qos / enable of every
-   entity kind, for any number of participants) on the factory state; `pr` is the build profile: in Debug a
-   `counter += 1` at the counter's maximum panics, in Release it wraps.  The ghost flag any_ovf is raised exactly by
-   such an increment (EntityModel.bump), i.e. when the u8 publisher/subscriber counter of a participant holds 255,
-   a u16 writer/reader/topic counter holds 65535 (or the u32 participant counter holds 2^32-1) and one more entity
-   of that kind is created in that participant. *)
+   entity kind, for any number of participants) on the factory state, `wrun` a scenario of calls through the
+   dds_async proxies; `pr` is the build profile (Debug = overflow checks, Release = wrapping arithmetic).  Since
+   b2cf990 the five entity-id counters (u8 publisher / subscriber, u16 writer / reader / topic) are incremented with
+   checked_add and an exhausted counter makes the creation return OutOfResources, so the profile no longer matters.
+   The only wrapping counter left is the AtomicU32 participant instance number of the factory (fetch_add): the
+   theorems ask for fewer than 2^32 create_participant calls in the history. *)
 From DustDDS Require Import Base.Machine Entity.EntityModel Entity.C35Proofs Entity.WorldInv.
 Open Scope Z_scope.
 
-(* For ALL histories, both profiles: as long as no counter was incremented at its maximum, no creation panics and
-   all entities existing at the same time have pairwise distinct instance handles and distinct RTPS GUIDs. *)
-Theorem C35_no_panic_and_distinct_handles_outside_overflow_class :
+(* For ALL histories of mails and both profiles: no creation panics (it returns a handle or an error) and all
+   entities existing at the same time have pairwise distinct instance handles and distinct RTPS GUIDs. *)
+Theorem C35_no_panic_and_distinct_handles :
   forall pr ops,
+    Z.of_nat (length (filter is_create_part ops)) <= u32_max ->
     let f := fst (frun pr init_factory ops) in
-    any_ovf f = false ->
     ~ In RPanic (snd (frun pr init_factory ops)) /\ NoDup (all_handles f) /\ NoDup (all_guids f).
 Proof. exact no_panic_and_distinct. Qed.
 
 (* The same for ALL application-level scenarios: every call through a dds_async proxy (create / delete / get_qos /
    set_qos / enable / status of any entity, delete_contained_entities, the create+delete loops of the harness) only
    sends mails, so the scenario traces compared with the real stack enjoy the property as well. *)
-Theorem C35_every_scenario_no_panic_and_distinct_handles_outside_overflow_class :
+Theorem C35_every_scenario_no_panic_and_distinct_handles :
   forall pr ops,
+    Z.of_nat (length (filter is_wp ops)) <= u32_max ->
     let w := wfinal pr init_world ops in
-    any_ovf (w_f w) = false ->
     ~ In RPanic (wrun pr init_world ops) /\ NoDup (all_handles (w_f w)) /\ NoDup (all_guids (w_f w)).
 Proof. exact scenario_no_panic_and_distinct. Qed.
 
-(* The invariant behind it holds in every reachable state and is what the C36 theorems reuse. *)
+(* A creation whose id counter is exhausted is refused with an error and changes nothing (publishers and
+   subscribers: OutOfResources; topics, writers, readers: OutOfResources unless an earlier test of the same call
+   already refuses it). *)
+Theorem C35_exhausted_counter_is_an_error :
+  (forall pr sd p q, gcounter sd p = 255 -> create_group pr sd p q = (p, RErr E_OUT_OF_RESOURCES)) /\
+  (forall pr p name q, pa_tc p = 65535 ->
+     fst (create_topic pr p name q) = p /\ exists c, snd (create_topic pr p name q) = RErr c) /\
+  (forall pr sd p gh name q r, ecounter sd p = 65535 -> snd (create_endpoint pr sd p gh name q) = r ->
+     exists c, r = RErr c /\ fst (create_endpoint pr sd p gh name q) = p).
+Proof.
+  split; [exact exhausted_group_counter|split; [exact exhausted_topic_counter|exact exhausted_endpoint_counter]].
+Qed.
+
+(* The invariant behind it holds in every reachable state and is what the C36 theorems reuse
+   (any_ovf = the participant instance number has wrapped). *)
 Theorem C35_invariant_of_all_histories :
   forall pr ops, any_ovf (fst (frun pr init_factory ops)) = false -> finv (fst (frun pr init_factory ops)).
 Proof. intros pr ops H. exact (proj1 (frun_inv pr ops init_factory finv_init H)). Qed.
 
-(* Inside the class the property is false (known finding C35-counter-overflow).
-   Debug profile (the profile of the harness): the 256th publisher of one participant panics the worker task. *)
-Theorem C35_debug_profile_panics_at_256th_publisher :
-  let ops := FCreatePart None :: repeat_op (FCreateGroup SPub (part_handle 0) None) 256 in
-  nth 256 (snd (frun Debug init_factory ops)) RUnit = RPanic /\
-  length (snd (frun Debug init_factory ops)) = 257%nat.
-Proof. exact debug_panics_at_256th_publisher. Qed.
-
-(* Release profile: no panic, but the 257th publisher gets the handle of the first one, which is still alive. *)
-Theorem C35_release_profile_reuses_a_live_handle :
-  let r := frun Release init_factory (FCreatePart None :: repeat_op (FCreateGroup SPub (part_handle 0) None) 257) in
-  ~ In RPanic (snd r) /\ nth 1 (snd r) RUnit = nth 257 (snd r) RUnit /\
-  nth 1 (snd r) RUnit = RHandle (mkH 0 0 0 0 8) /\ ~ NoDup (all_handles (fst r)).
-Proof. exact release_duplicates_handle_at_257th_publisher. Qed.
+(* regression of the former finding C35-counter-overflow: 257 publishers in one participant, both profiles *)
+Theorem C35_publishers_256_and_257_are_refused :
+  forall pr,
+    let r := frun pr init_factory (FCreatePart None :: repeat_op (FCreateGroup SPub (part_handle 0) None) 257) in
+    nth 255 (snd r) RUnit = RHandle (mkH 0 254 0 0 8) /\
+    nth 256 (snd r) RUnit = RErr E_OUT_OF_RESOURCES /\ nth 257 (snd r) RUnit = RErr E_OUT_OF_RESOURCES /\
+    length (all_handles (fst r)) = 256%nat.
+Proof. exact publishers_256_and_257_are_refused. Qed.
 
 (* non-vacuity: a history with two participants, publishers, subscribers, topics, writers, readers and deletions
-   stays outside the class and has 10 live handles *)
+   has 10 live handles *)
 Example C35_nonvacuous :
   let P0 := part_handle 0 in let P1 := part_handle 1 in
   let ops := [FCreatePart None; FCreatePart None; FCreateTopic P0 1 None; FCreateGroup SPub P0 None;
@@ -56,12 +65,12 @@ Example C35_nonvacuous :
               FCreateEp SSub P0 (mkH 0 0 0 0 9) 1 None; FCreateEp SPub P0 (mkH 0 0 0 0 8) 1 None;
               FDeleteEp SPub P0 (mkH 0 0 0 0 8) (mkH 0 0 0 0 2); FCreateGroup SPub P1 None;
               FCreateTopic P1 1 None; FCreateEp SPub P1 (mkH 1 0 0 0 8) 1 None] in
-  any_ovf (fst (frun Debug init_factory ops)) = false /\
+  Z.of_nat (length (filter is_create_part ops)) = 2 /\
   length (all_handles (fst (frun Debug init_factory ops))) = 10%nat.
 Proof. vm_compute. split; reflexivity. Qed.
 
-Print Assumptions C35_no_panic_and_distinct_handles_outside_overflow_class.
-Print Assumptions C35_every_scenario_no_panic_and_distinct_handles_outside_overflow_class.
+Print Assumptions C35_no_panic_and_distinct_handles.
+Print Assumptions C35_every_scenario_no_panic_and_distinct_handles.
+Print Assumptions C35_exhausted_counter_is_an_error.
 Print Assumptions C35_invariant_of_all_histories.
-Print Assumptions C35_debug_profile_panics_at_256th_publisher.
-Print Assumptions C35_release_profile_reuses_a_live_handle.
+Print Assumptions C35_publishers_256_and_257_are_refused.
